@@ -43,6 +43,19 @@ func runSeeds(prop, repo, verif string) seedSummary {
 	var sum seedSummary
 	files, _ := filepath.Glob(filepath.Join(verif, "seeds", prop, "*.patch"))
 	sort.Strings(files)
+	expects := make([]string, len(files))
+	// the kept sub-agent mutants of this property are part of the self-validation too: each must be reported
+	// by some rule of the property, unless its meta.json records that it lies outside what the rules decide
+	muts, _ := filepath.Glob(filepath.Join(verif, "seeded", prop+"-*", "patch.diff"))
+	sort.Strings(muts)
+	for _, m := range muts {
+		meta, _ := os.ReadFile(filepath.Join(filepath.Dir(m), "meta.json"))
+		if strings.Contains(string(meta), `"caught_by_check": false`) {
+			continue
+		}
+		files = append(files, m)
+		expects = append(expects, "fire "+prop)
+	}
 	results := make([]seedResult, len(files))
 	var wg sync.WaitGroup
 	sem := make(chan struct{}, 6)
@@ -52,7 +65,10 @@ func runSeeds(prop, repo, verif string) seedSummary {
 			defer wg.Done()
 			sem <- struct{}{}
 			defer func() { <-sem }()
-			results[i] = runSeed(prop, repo, verif, f)
+			results[i] = runSeed(prop, repo, verif, f, expects[i])
+			if expects[i] != "" {
+				results[i].Name = filepath.Base(filepath.Dir(f))
+			}
 		}(i, f)
 	}
 	wg.Wait()
@@ -80,15 +96,15 @@ func runSeeds(prop, repo, verif string) seedSummary {
 	return sum
 }
 
-func runSeed(prop, repo, verif, patch string) seedResult {
-	res := seedResult{Name: filepath.Base(patch)}
+func runSeed(prop, repo, verif, patch, expect string) seedResult {
+	res := seedResult{Name: filepath.Base(patch), Expect: expect}
 	b, err := os.ReadFile(patch)
 	if err != nil {
 		res.Result, res.Detail = "skipped", err.Error()
 		return res
 	}
 	for _, ln := range strings.Split(string(b), "\n") {
-		if strings.HasPrefix(ln, "# expect:") {
+		if res.Expect == "" && strings.HasPrefix(ln, "# expect:") {
 			res.Expect = strings.TrimSpace(strings.TrimPrefix(ln, "# expect:"))
 			break
 		}
